@@ -37,6 +37,9 @@
 #include <unordered_map>
 #include <variant>
 
+#include <sys/wait.h>
+#include <unistd.h>
+
 using namespace Opm;
 namespace fs = std::filesystem;
 using Strs = std::vector<std::string>;
@@ -605,6 +608,92 @@ static std::optional<UDQSet> realEval(const Strs& deck, char target, Env& env) {
 
 // ---------------------------------------------------------------------------------------------
 
+// run `f` in a forked child: 0 = returned, 1 = threw, -signal = killed (SIGSEGV, SIGABRT, alarm)
+static int runIsolated(const std::function<void()>& f) {
+    std::cout.flush(); std::cerr.flush();
+    pid_t pid = fork();
+    if (pid < 0) return 0;
+    if (pid == 0) {
+        alarm(20);
+        int rc = 0;
+        try { f(); } catch (...) { rc = 1; }
+        _exit(rc);
+    }
+    int st = 0;
+    waitpid(pid, &st, 0);
+    if (WIFSIGNALED(st)) return -WTERMSIG(st);
+    return WEXITSTATUS(st);
+}
+
+static ParseContext lenientAll() {
+    ParseContext pc;
+    pc.update(ParseContext::UDQ_PARSE_ERROR, InputErrorAction::IGNORE);
+    pc.update(ParseContext::UDQ_TYPE_ERROR, InputErrorAction::IGNORE);
+    return pc;
+}
+
+static bool isSymbolTok(const std::string& t) {
+    static const std::set<std::string> sym = { "+", "-", "*", "/", "^", "(", ")", "[", "]", "==", "!=", ">=", "<=", ">", "<" };
+    return sym.count(t) > 0 || (!t.empty() && t[0] == '\'');
+}
+
+// glue neighbouring tokens into one deck item where this cannot merge two words
+static Strs glueItems(vh::Rng& rng, const Strs& toks, int num, int den) {
+    Strs items;
+    for (size_t i = 0; i < toks.size(); ++i) {
+        bool glue = i > 0 && (isSymbolTok(toks[i - 1]) || isSymbolTok(toks[i])) && rng.coin(num, den);
+        // two comparison / sign characters in a row could form another operator ("<" "=" ...): keep them apart
+        if (glue && !items.back().empty() && std::string("<>=!").find(items.back().back()) != std::string::npos && !toks[i].empty() && toks[i][0] == '=') glue = false;
+        if (glue) items.back() += toks[i]; else items.push_back(toks[i]);
+    }
+    return items;
+}
+
+static std::string randNumber(vh::Rng& rng) {
+    switch (rng.below(8)) {
+    case 0: return std::to_string(rng.range(0, 9999));
+    case 1: return std::to_string(rng.range(0, 99)) + "." + std::to_string(rng.range(0, 999));
+    case 2: return std::to_string(rng.range(1, 9)) + "." + std::to_string(rng.range(0, 99)) + (rng.coin() ? "E" : "e") + rng.pick(Strs{ "", "+", "-" }) + std::to_string(rng.range(0, 12));
+    case 3: return "." + std::to_string(rng.range(1, 99));
+    case 4: return std::to_string(rng.range(0, 9)) + ".";
+    case 5: return std::to_string(rng.range(1, 99)) + "e" + std::to_string(rng.range(0, 5));
+    case 6: return "0." + std::string(static_cast<size_t>(rng.range(0, 4)), '0') + std::to_string(rng.range(1, 999));
+    default: return rng.pick(kValues);
+    }
+}
+
+// token strings of a DEFINE right-hand side for the tokeniser tests (well / scalar quantities only)
+static Strs lexExpr(vh::Rng& rng, const World& w) {
+    Gen g(rng, w, 'W');
+    Strs e = g.expr(rng.coin() ? 'W' : 'S', rng.range(1, 4));
+    for (auto& t : e) { char* end = nullptr; std::strtod(t.c_str(), &end); if (*end == 0 && rng.coin()) t = randNumber(rng); }
+    if (rng.coin(1, 4)) {   // a table look-up somewhere
+        Strs lk = { "TU_FBHP", "[", rng.pick(Strs{ "FOPR", "WOPR", "FUA" }), "]" };
+        size_t p = rng.below(e.size() + 1);
+        if (p < e.size()) { e.insert(e.begin() + static_cast<long>(p), rng.pick(Strs{ "+", "*" })); }
+        else { e.push_back(rng.pick(Strs{ "+", "*" })); ++p; }
+        e.insert(e.begin() + static_cast<long>(p), lk.begin(), lk.end());
+    }
+    return e;
+}
+
+static std::string defineTokens(const Strs& items, bool& unbalanced, bool& other) {
+    UDQParams udqp;
+    KeywordLocation loc;
+    ErrorGuard errors;
+    auto pc = lenientAll();
+    unbalanced = other = false;
+    std::string out;
+    try {
+        UDQDefine def(udqp, "WUX", 0, loc, items, pc, errors);
+        for (auto& t : def.tokens()) out += " " + tokProto(t);
+    } catch (const std::invalid_argument& e) {
+        if (std::string(e.what()).rfind("Unbalanced quotes", 0) == 0) unbalanced = true; else other = true;
+    } catch (const std::exception&) { other = true; }
+    errors.clear();
+    return out;
+}
+
 int main(int argc, char** argv) {
     if (argc < 5) { std::cerr << "usage: udq corr|prop <seed> <tier> <outdir>\n"; return 2; }
     const std::string mode = argv[1];
@@ -769,7 +858,8 @@ int main(int argc, char** argv) {
         {
             struct LeafSpec { std::string name; Strs sel; };
             const std::vector<LeafSpec> leaves = { { "WOPR", {} }, { "GOPR", {} }, { "FOPR", {} }, { "1", {} }, { "WOPR", { "P1" } },
-                                                   { "WOPR", { "P*" } }, { "GOPR", { "G1" } }, { "WUA", {} }, { "FUA", {} }, { "TCPU", {} } };
+                                                   { "WOPR", { "P*" } }, { "GOPR", { "G1" } }, { "WUA", {} }, { "FUA", {} }, { "TCPU", {} },
+                                                   { "TU_FBHP", { "FOPR" } }, { "TU_WT", { "WOPR" } } };
             auto mk = [&](const std::vector<std::string>& spec) {
                 // spec items: operator / parenthesis / function strings, or "#k" = leaf number k
                 std::vector<UDQToken> out;
@@ -843,6 +933,29 @@ int main(int argc, char** argv) {
                 }
                 if (spec.empty()) continue;
                 emitType(mk(spec), rng.pick(targets), "random");
+            }
+        }
+        // (7) tokenisation of the DEFINE record: UDQDefine(deck items).tokens() vs the model of
+        //     quote_split / next_token / normalize_string_tokens / make_udq_tokens
+        {
+            World w0 = makeWorld(rng, false);
+            int n = thorough ? 5000 : 1200;
+            for (int k = 0; k < n; ++k) {
+                Strs toks = lexExpr(rng, w0);
+                Strs items = glueItems(rng, toks, rng.range(0, 3), 3);
+                if (rng.coin(1, 12)) {   // blanks inside an item, other white space at its ends
+                    size_t p = rng.below(items.size());
+                    items[p] = rng.pick(Strs{ " ", "\t", "" }) + items[p] + rng.pick(Strs{ " ", "  ", "\t" });
+                }
+                if (rng.coin(1, 25)) { size_t p = rng.below(items.size()); items[p] += "'"; }   // unbalanced quote
+                bool unb = false, other = false;
+                std::string ans = defineTokens(items, unb, other);
+                if (other) { sink.count("lex.skipped"); continue; }
+                std::string op = "udq.tokenize";
+                for (auto& it : items) op += " " + vh::hex(it);
+                sink.emit(op, unb ? std::string("err") : "ok" + ans);
+                sink.count(unb ? "lex.unbalanced" : "lex.ok");
+                sink.count("lex.items", static_cast<long>(items.size()));
             }
         }
         // (5) definedness histories of well / group / field level DEFINEs through the real
@@ -1242,6 +1355,37 @@ int main(int argc, char** argv) {
                 bool x = accepted(key, flat), y = accepted(key, par);
                 if (x == y) { log.ok(); ++stats["type_check_paren_invariant"]; }
                 else failOnce("chain-type-check", "DEFINE " + key + " " + joinStrs(flat) + " is " + (x ? "accepted" : "rejected") + " but DEFINE " + key + " " + joinStrs(par) + " (the same tree) is " + (y ? "accepted" : "rejected"));
+            }
+        }
+        // (g) tokenisation does not depend on how the record is cut into deck items: operators and
+        //     parentheses written without blanks around them give the same tokens
+        {
+            World w0 = makeWorld(rng, false);
+            int n = thorough ? 1500 : 400;
+            for (int k = 0; k < n; ++k) {
+                Strs toks = lexExpr(rng, w0);
+                Strs glued = glueItems(rng, toks, rng.range(1, 3), 3);
+                bool u1, o1, u2, o2;
+                std::string a = defineTokens(toks, u1, o1), b = defineTokens(glued, u2, o2);
+                if (o1 || o2) { ++stats["lex_glue.skipped"]; continue; }
+                if (a == b && u1 == u2) { log.ok(); ++stats["lex_glue"]; }
+                else failOnce("token-glue", "items [" + joinStrs(toks) + "] and [" + joinStrs(glued) + "] give different tokens");
+            }
+        }
+        // (h) malformed records must end in an exception, not in a signal (run in a child process)
+        {
+            UDQParams udqp;
+            const std::vector<Strs> decks = { { "TU_FBHP", "[", "FOPR" }, { "TU_FBHP[FOPR" }, { "1", "+", "TU_X", "[", "WOPR" }, { "TU_X" }, { "2", "*", "TUX" } };
+            for (const Strs& deck : decks) {
+                int rc = runIsolated([&]() { KeywordLocation loc; ParseContext pc; ErrorGuard errors; UDQDefine def(udqp, "FUX", 0, loc, deck, pc, errors); errors.clear(); });
+                if (rc >= 0) { log.ok(); ++stats["isolated"]; }
+                else failOnce("table-lookup-unterminated", "DEFINE FUX " + joinStrs(deck) + " : the UDQDefine constructor died with signal " + std::to_string(-rc) + " (make_udq_tokens reads past the end of the token vector when ']' is missing)");
+            }
+            // well-formed look-ups and ordinary malformed records for comparison
+            for (const Strs& deck : { Strs{ "TU_FBHP", "[", "FOPR", "]" }, Strs{ "1", "+" }, Strs{ "(", "(" }, Strs{ "'P1" } }) {
+                int rc = runIsolated([&]() { KeywordLocation loc; ParseContext pc; ErrorGuard errors; UDQDefine def(udqp, "FUX", 0, loc, deck, pc, errors); errors.clear(); });
+                if (rc >= 0) { log.ok(); ++stats["isolated"]; }
+                else log.fail("define-signal", "DEFINE FUX " + joinStrs(deck) + " : signal " + std::to_string(-rc));
             }
         }
         std::ofstream f(outdir + "/prop_stats.json");
